@@ -132,7 +132,47 @@ def step(B, G, nsamp=3):
         G.fact("%s.shape" % tag, tuple(np.shape(out)) == (nsamp,), np.shape(out))
         for i in range(nsamp):
             G.eq("%s[%d]" % (tag, i), out[i], ref[i], tol=1e-13)
+    # two DIFFERENT observables that print alike (same name / symbol, e.g. SigmaZ() and SigmaZ(absolute=True), two SWAPs of
+    # different regions): a sum of them is the sum of their values, not twice the first
+    tw = Leaf(B, "a_twin", nsamp)
+    tw.name, tw.symbol = a.name, a.symbol
+    for tag, node, ref in (("a+lookalike", a + tw, [x + y for x, y in zip(a.vals, tw.vals)]), ("lookalike+a", tw + a, [x + y for x, y in zip(a.vals, tw.vals)]),
+                           ("2a+2lookalike", 2 * a + 2 * tw, [2 * x + 2 * y for x, y in zip(a.vals, tw.vals)]),
+                           ("(a+1)+(lookalike+1)", (a + 1) + (tw + 1), [x + y + 2 for x, y in zip(a.vals, tw.vals)])):
+        out = B.scalars(node.apply(None, samples))
+        for i in range(nsamp):
+            G.eq("%s[%d]" % (tag, i), out[i], ref[i], tol=1e-13)
     G.twin("twin_rsub", B.scalars((2 - a).apply(None, samples))[0], a.vals[0] - 2)
+
+
+def library_leaves(B, G):
+    """composites of the library's own observables (SigmaZ, NeighbourInteraction open / periodic) on a concrete batch: every operand
+    is evaluated on the SAME sample tensor, so the value of the composite is the arithmetic on the values each part gives alone on
+    a private copy - in either operand order - and the batch is left as it was"""
+    from qucumber.observables import SigmaZ, NeighbourInteraction
+
+    O = B.O
+    rows = [[0, 1, 1], [1, 0, 1], [1, 1, 0], [0, 0, 1], [1, 1, 1]]
+    samples = C_rows(B, rows)
+    Z, NI, NP = SigmaZ(), NeighbourInteraction(), NeighbourInteraction(periodic_bcs=True, c=2)
+    alone = {k: [x for x in B.scalars(ob.apply(None, C_rows(B, rows)))] for k, ob in (("Z", Z), ("NI", NI), ("NP", NP))}
+    cases = [("NI+Z", NI + Z, lambda i: alone["NI"][i] + alone["Z"][i]), ("Z+NI", Z + NI, lambda i: alone["Z"][i] + alone["NI"][i]),
+             ("NI-Z", NI - Z, lambda i: alone["NI"][i] - alone["Z"][i]), ("2*NI-NP", 2 * NI - NP, lambda i: 2 * alone["NI"][i] - alone["NP"][i]),
+             ("-NI-3*Z+1", -NI - 3 * Z + 1, lambda i: -alone["NI"][i] - 3 * alone["Z"][i] + 1), ("NP+NI+Z", NP + NI + Z, lambda i: alone["NP"][i] + alone["NI"][i] + alone["Z"][i])]
+    before = B.scalars(samples).copy()
+    for tag, node, ref in cases:
+        out = B.scalars(node.apply(None, samples))
+        G.fact("%s.shape" % tag, tuple(np.shape(out)) == (len(rows),), np.shape(out))
+        for i in range(len(rows)):
+            G.eq("%s[%d]" % (tag, i), out[i], ref(i), tol=1e-13)
+        G.fact("%s.batch_unchanged" % tag, bool(np.all(B.scalars(samples) == before)), "sample tensor after evaluating the composite")
+    G.twin("twin_library_leaves", B.scalars((NI + Z).apply(None, C_rows(B, rows)))[0], alone["Z"][0] + alone["NI"][0] + 1)
+
+
+def C_rows(B, rows):
+    from checks import common as C
+
+    return C.rows_tensor(B, rows)
 
 
 def trees(B, G, depth=3, count=60, nsamp=2, seed=0):
@@ -184,7 +224,8 @@ def trees(B, G, depth=3, count=60, nsamp=2, seed=0):
 
 
 def jobs(tier):
-    J = [dict(name="step", module="checks.c16", scenario="step", kwargs=dict(nsamp=3 if tier == "quick" else 5))]
+    J = [dict(name="step", module="checks.c16", scenario="step", kwargs=dict(nsamp=3 if tier == "quick" else 5)),
+         dict(name="library-leaves", module="checks.c16", scenario="library_leaves", kwargs={})]
     n = 3 if tier == "quick" else 16
     for k in range(n):
         depth = 2 + (k % 2) if tier == "quick" else 2 + (k % 5)  # thorough: depths 2..6
